@@ -115,9 +115,9 @@ Conf(exp, log, sends, pU, pA, pT, pSmiss, pSextra) ==
     \cup (IF exp.st.gkH # log.gkH THEN T("C09", "conf.height") ELSE {})
     \cup (IF exp.st.wH # log.wH THEN T("C08", "conf.height") ELSE {})
     \cup (IF exp.st.reorged # log.reorged THEN T("C04", "conf.reorged") ELSE {})
-    \cup (IF {<<m.tx, m.v>> : m \in exp.st.memo} # {<<m.tx, m.v>> : m \in log.memo} THEN T("C01", "conf.memo") ELSE {})
+    \cup (IF {<<m.tx, m.v>> : m \in exp.st.memo} # {<<m.tx, m.v>> : m \in log.memo} THEN T("SPEC", "conf.memo") ELSE {})
     \cup (IF exp.st.reachable # log.reachable THEN T("C12", "conf.reachable") ELSE {})
-    \cup (IF exp.st.lastKnown # log.lastKnown THEN T("C03", "conf.last_known") ELSE {})
+    \cup (IF exp.st.lastKnown # log.lastKnown /\ ~("spv" \in DOMAIN Ev /\ log.lastKnown = Ev.spv) THEN T("C03", "conf.last_known") ELSE {})
 
 \* logged look-up observations against the model caches (C19 inside the tower)
 CacheTags(p, wc, ri) == IF Ev.frozen THEN {} ELSE
@@ -155,7 +155,7 @@ CrashTags(logAbort, pre, x, log, ek, gr) ==
 Comparable(expAbort, logAbort) == logAbort = "" /\ expAbort \in {"", "norpc"}
 
 -----------------------------------------------------------------------------
-Init == st = [dead |-> TRUE] /\ g = [seen |-> {}, nodeHas |-> {}, chain |-> {}, lastAcc |-> {}, tower_id |-> "", granted |-> {}, flagged |-> FALSE] /\ l = 1 /\ tags = {} /\ alive = FALSE
+Init == st = [dead |-> TRUE] /\ g = [seen |-> {}, nodeHas |-> {}, chain |-> {}, lastAcc |-> {}, tower_id |-> "", granted |-> {}, flagged |-> FALSE, fresh |-> {}] /\ l = 1 /\ tags = {} /\ alive = FALSE
 
 \* Boot: volatile state rebuilt from the database rows and the node's last blocks (inputs).
 StepBoot ==
@@ -167,7 +167,7 @@ StepBoot ==
            allkeys == UNION {blocks[i].keys : i \in 1..n}
        IN /\ st' = log
           /\ g' = [g EXCEPT !.seen = @ \cup allkeys, !.nodeHas = @ \cup allkeys, !.chain = {blocks[i] : i \in 1..n},
-                            !.granted = IF "dead" \in DOMAIN st THEN Resync(@, log) ELSE @,
+                            !.granted = IF "dead" \in DOMAIN st THEN Resync(@, log) ELSE @, !.fresh = {},
                             !.tower_id = IF @ = "" THEN Ev.tower_id ELSE @]
           /\ tags' = tags
                 \cup (IF Ev.abort = "" THEN Lift(C07_Copies(log)) ELSE {})
@@ -221,7 +221,7 @@ StepAdd ==
            exp == WithFlag(AddAppointmentF(st, Ev.who, a, orc), Ev.rpc)
            log == LogOr(Ev, exp.st, st.wCache, st.rIndex)
            E == [act |-> "Add", who |-> Ev.who, a |-> a, reply |-> Ev.reply, sends |-> sends, orc |-> orc]
-           g2 == [g EXCEPT !.granted = Resync(@, log),
+           g2 == [g EXCEPT !.granted = Resync(@, log), !.fresh = @ \cup {tx \in 0..MAXTX : orc[tx] \in {"ok", "rej", "res"}},
                            !.flagged = IF \E i \in 1..Len(Ev.rpc) : Ev.rpc[i][3] = "err" THEN FALSE ELSE @,
                            !.nodeHas = @ \cup {tx \in 0..MAXTX : orc[tx] \in {"ok", "mem", "res"}},
                            !.lastAcc = IF Ev.abort = "" /\ Ev.reply.code = "ok" /\ HasKey(log.appts, <<Ev.who, Ev.l>>)
@@ -240,7 +240,7 @@ StepAdd ==
                       THEN Conf(exp, log, sends, "C07", "C01", "C01", "C01", "C02")
                            \cup ReplyCodeTags(exp.reply.code, Ev.reply.code)
                            \cup Lift(C06_Request(st, E, log) \cup C07_Add(st, E, log) \cup C07_Copies(log))
-                           \cup (IF st.reachable THEN Lift(C01_Add(st, E, log) \cup C08_Add(st, E, log)) ELSE {})
+                           \cup (IF st.reachable THEN Lift(C01_Add(st, E, log, g) \cup C08_Add(st, E, log)) ELSE {})
                            \cup Lift(C02_Sends(st, E, log, g) \cup C02_Status(st, E, log, g2))
                       ELSE {})
           /\ alive' = (alive /\ Ev.abort = "")
@@ -308,7 +308,7 @@ StepWConnect ==
            exp == WithFlag(WConnectF(st, blk, orc), Ev.rpc)
            log == LogOr(Ev, exp.st, exp.st.wCache, st.rIndex)
            E == [act |-> "WConnect", blk |-> blk, reply |-> Reply("ok"), sends |-> sends, orc |-> orc]
-           g2 == [g EXCEPT !.seen = @ \cup blk.keys,
+           g2 == [g EXCEPT !.fresh = @ \cup {tx \in 0..MAXTX : orc[tx] \in {"ok", "rej", "res"}}, !.seen = @ \cup blk.keys,
                            !.nodeHas = @ \cup blk.keys \cup {tx \in 0..MAXTX : orc[tx] \in {"ok", "mem", "res"}},
                            !.chain = {b \in @ : b.h < blk.h} \cup {blk}]
        IN /\ st' = log
@@ -318,7 +318,7 @@ StepWConnect ==
                 \cup CrashTags(Ev.abort, st, exp.st, log, <<0, 0>>, g.granted)
                 \cup (IF Comparable(exp.abort, Ev.abort)
                       THEN Conf(exp, log, sends, "C07", "C01", "C01", "C01", "C02")
-                           \cup Lift(C01_WConnect(st, E, log) \cup C02_Sends(st, E, log, g) \cup C02_Status(st, E, log, g2)
+                           \cup Lift(C01_WConnect(st, E, log, g) \cup C02_Sends(st, E, log, g) \cup C02_Status(st, E, log, g2)
                                      \cup C07_Frozen(st, log) \cup C07_Copies(log))
                            \cup CacheTags(Ev.post, exp.st.wCache, st.rIndex)
                       ELSE {})
@@ -332,7 +332,7 @@ StepRConnect ==
            exp == WithFlag(RConnectF(st, blk, orc), Ev.rpc)
            log == LogOr(Ev, exp.st, st.wCache, exp.st.rIndex)
            E == [act |-> "RConnect", blk |-> blk, reply |-> Reply("ok"), sends |-> sends, orc |-> orc]
-           g2 == [g EXCEPT !.seen = @ \cup blk.keys,
+           g2 == [g EXCEPT !.fresh = {}, !.seen = @ \cup blk.keys,
                            !.nodeHas = @ \cup blk.keys \cup {tx \in 0..MAXTX : orc[tx] \in {"ok", "mem", "res"}},
                            !.chain = {b \in @ : b.h < blk.h} \cup {blk}]
        IN /\ st' = log
@@ -373,7 +373,7 @@ StepPollEnd ==
     /\ Ev.act = "PollEnd"
     /\ LET es == CASE Ev.propagated -> st      \* a listener aborted: the poll never reached its end
                    [] Ev.res = "ok" -> PollOkF(st, Ev.tip)
-                   [] Ev.res = "common" -> PollCommonF(st)
+                   [] Ev.res \in {"common", "worse"} -> PollCommonF(st)    \* same or worse tip: nothing to process, bitcoind is there
                    [] Ev.res = "transient" -> PollTransientF(st)
                    [] OTHER -> st
            exp == Out(es, Reply("ok"), {})
@@ -459,10 +459,9 @@ ApplyChainStep(s, step, orc) ==
          [] step[1] = "conn" /\ step[2] = "W" -> WConnectF(s, blk, orc).st
          [] OTHER -> RConnectF(s, blk, orc).st
 
-RECURSIVE ApplyChain(_, _, _, _)
-ApplyChain(s, ch, i, orc) ==
-    LET steps == ChainSteps(ch)
-    IN IF i > Len(steps) THEN s ELSE ApplyChain(ApplyChainStep(s, steps[i], orc), ch, i + 1, orc)
+RECURSIVE ApplySteps(_, _, _, _)
+ApplySteps(s, steps, i, orc) == IF i > Len(steps) THEN s ELSE ApplySteps(ApplyChainStep(s, steps[i], orc), steps, i + 1, orc)
+ApplyChain(s, ch, i, orc) == ApplySteps(s, ChainSteps(ch), i, orc)
 
 ApplyApi(s, o, orc) ==
     CASE o.op = "register" -> LET x == RegisterF(s, o.u) IN [st |-> x.st, ok |-> ConcReplyOk(x.reply, o.reply, FALSE)]
@@ -473,6 +472,8 @@ ApplyApi(s, o, orc) ==
                                        THEN {IF Key(r) = <<o.who, o.l>> /\ r.ver = o.ver THEN [r EXCEPT !.start = o.reply.start] ELSE r : r \in t} ELSE t
                          IN [st |-> [x.st EXCEPT !.appts = fix(@)], ok |-> ConcReplyOk(x.reply, o.reply, TRUE) /\ x.abort = ""]
       [] o.op = "get" -> [st |-> s, ok |-> ConcReplyOk(GetAppointmentF(s, o.who, o.l), o.reply, FALSE)]
+      [] o.op = "sub" -> LET x == GetSubscriptionInfoF(s, o.who)
+                         IN [st |-> s, ok |-> ConcReplyOk(x, o.reply, FALSE) /\ (x.code = "ok" => x.locators = ToSetOf(o.reply.locators))]
       [] OTHER -> [st |-> s, ok |-> FALSE]
 
 \* merged order: item k of the merged sequence is either chain step (k counts) or an API op; represented by a function
@@ -518,7 +519,7 @@ StepConc ==
            grC == {x \in g.granted : x[1] \notin regUsers}
                   \cup {<<u, (IF HasUser(st.users, u) THEN GrantedOf(g.granted, u) ELSE 0) + regs(u) * SUB_S>> : u \in regUsers}
        IN /\ st' = log
-          /\ g' = [g EXCEPT !.granted = Resync({x \in grC : HasUser(log.users, x[1])}, log),
+          /\ g' = [g EXCEPT !.granted = Resync({x \in grC : HasUser(log.users, x[1])}, log), !.fresh = {},
                             !.seen = @ \cup UNION {ToSetOf(Ev.chain[i][2].keys) : i \in 1..Len(Ev.chain)},
                             !.nodeHas = @ \cup {tx \in 0..MAXTX : orc[tx] \in {"ok", "mem", "res"}}
                                           \cup UNION {ToSetOf(Ev.chain[i][2].keys) : i \in 1..Len(Ev.chain)},
@@ -544,7 +545,7 @@ StepChain ==
            log == LogOr(Ev, exp.st, exp.st.wCache, exp.st.rIndex)
            keys == UNION {ToSetOf(Ev.chain[i][2].keys) : i \in 1..Len(Ev.chain)}
        IN /\ st' = log
-          /\ g' = [g EXCEPT !.seen = @ \cup keys,
+          /\ g' = [g EXCEPT !.fresh = {}, !.seen = @ \cup keys,
                             !.nodeHas = @ \cup keys \cup {tx \in 0..MAXTX : orc[tx] \in {"ok", "mem", "res"}},
                             !.granted = {x \in @ : HasUser(log.users, x[1])},
                             !.chain = LET conn == {BlkOf(Ev.chain[i][2]) : i \in {j \in 1..Len(Ev.chain) : Ev.chain[j][1] = "conn"}}
@@ -572,7 +573,7 @@ StepRestore ==
 StepInit ==
     /\ Ev.act = "Init"
     /\ st' = [dead |-> TRUE]
-    /\ g' = [seen |-> {}, nodeHas |-> {}, chain |-> {}, lastAcc |-> {}, tower_id |-> "", granted |-> {}, flagged |-> FALSE]
+    /\ g' = [seen |-> {}, nodeHas |-> {}, chain |-> {}, lastAcc |-> {}, tower_id |-> "", granted |-> {}, flagged |-> FALSE, fresh |-> {}]
     /\ alive' = FALSE
     /\ UNCHANGED tags
 
